@@ -336,6 +336,7 @@ class Hist:
         self.nonfinite = False
         self.exact = True
         self.unmodelled = 0
+        self.absorbed = False
 
     def note(self, path, kind, v):
         self.values.append((path, kind, v, snapshot_safe(v)))
@@ -406,6 +407,8 @@ class Hist:
             if op == "div":
                 self.touches_zero(vals[1])
             return OPS[op](vals[0], vals[1]) if dep == "b" else getattr(vals[0], op)(vals[1], dependency=dep)
+        if k in ("num", "rnum") and spec[1] in ("add", "sub") and abs(spec[2]) >= 1e15:
+            self.absorbed = True          # binary64 absorbs the box into the constant; the exact model does not
         if k == "num":
             return OPS[spec[1]](vals[0], spec[2])
         if k == "rnum":
@@ -1043,7 +1046,7 @@ def run(ctx: core.Check):
                      "the same history evaluated twice (other operations in between) gave different values")
     reqs, idx = [], []
     for j, (sp, h, impl, wire, v) in enumerate(runs):
-        if wire is None or h.nonfinite:
+        if wire is None or h.nonfinite or h.absorbed:
             continue
         reqs.append(f"ev {cw} {wire}")
         idx.append(j)
@@ -1074,7 +1077,7 @@ def run(ctx: core.Check):
                 ctx.tie_bad("history", {"history": sp, "leaves": case["leaves"]}, pbx.js(impl), pbx.js(model))
             ctx.bump("tie:exact" if exact else "tie:tolerance")
         else:
-            ctx.bump("tie-skipped:" + ("nonfinite" if h.nonfinite else "raised-in-unmodelled-node"))
+            ctx.bump("tie-skipped:" + ("nonfinite" if h.nonfinite else ("absorbed-by-1e15+" if h.absorbed else "raised-in-unmodelled-node")))
         if impl[0] == "err":
             ctx.bump("history-raises:" + impl[1])
         if j % 37 == 0:
@@ -1153,7 +1156,8 @@ def edge_stream(ctx):
         ("imposition-empty", "imposition(p,p+100)", lambda: pba.imposition(p, p + 100)),
         ("imposition-empty", "(p+100).imp(p)", lambda: (p + 100).imp(p)),
         ("imposition-empty", "imposition(p,q,I(50,60))", lambda: pba.imposition(p, pba.normal([1.5, 2.5], 1), I(50, 60))),
-        ("imposition-empty", "imposition partly empty", lambda: pba.imposition(pba.uniform(0, 4), pba.uniform(3, 5))),
+        ("imposition-empty", "imposition of precise boxes", lambda: pba.imposition(pba.uniform(0, 4), pba.uniform(3, 5))),
+        ("imposition-empty", "imposition empty at the low steps only", lambda: pba.imposition(pba.uniform([0, 1], [4, 5]), I(2.5, 3).to_pbox())),
         # unary maps just outside their domain
         ("domain-edge", "sqrt lo=-1e-17", lambda: I(-1e-17, 4).to_pbox().sqrt()),
         ("domain-edge", "np.sqrt lo=-1e-17", lambda: np.sqrt(I(-1e-17, 4).to_pbox())),
